@@ -95,7 +95,7 @@ func nUses(sb, want *strings.Builder, ind, tag, k string, local bool) {
 }
 
 func (c *NCase) build() (src, want string) {
-	var sb, wb strings.Builder
+	var sb, wb, wb2 strings.Builder
 	sb.WriteString("import \"fmt\"\n")
 	fmt.Fprintf(&sb, "type Level %s\n", c.Global)
 	sb.WriteString("type Rec struct {\n\tA Level\n}\n")
@@ -132,11 +132,22 @@ func (c *NCase) build() (src, want string) {
 	fmt.Fprintf(&sb, "\tgp := bump(%s)\n\tfmt.Println(\"gparam\", gp, gp/2)\n", gc)
 	fmt.Fprintf(&wb, "gparam %s\n", nModel(c.Global))
 	sb.WriteString("}\n")
+	// two blocks of one function declare a struct type of one name, with the same field names; the element types differ
+	sb.WriteString("func twins() {\n")
+	for i, k := range []string{c.Global, c.Local} {
+		fmt.Fprintf(&sb, "\tif len(\"x\") == 1 {\n\t\ttype Bag struct {\n\t\t\tVals []%s\n\t\t\tM map[string]%s\n\t\t}\n", k, k)
+		fmt.Fprintf(&sb, "\t\tb := &Bag{M: map[string]%s{}}\n\t\tb.Vals = append(b.Vals, %s)\n\t\tb.Vals[0] += %s\n\t\tfmt.Println(\"bag%d\", b.Vals[0], b.Vals[0]/2)\n", k, nConsts[k][0], nConsts[k][1], i)
+		fmt.Fprintf(&sb, "\t\tb.M[\"k\"] = %s\n\t\tb.M[\"k\"] += %s\n\t\tfmt.Println(\"bagm%d\", b.M[\"k\"], b.M[\"k\"]/2)\n\t}\n", nConsts[k][0], nConsts[k][1], i)
+		fmt.Fprintf(&wb2, "bag%d %s\nbagm%d %s\n", i, nModel(k), i, nModel(k))
+	}
+	sb.WriteString("}\n")
 	sb.WriteString("probe()\nafter()\n")
 	if c.BaseUse != 0 {
 		fmt.Fprintf(&sb, "base += %s\nfmt.Println(\"base\", base, base/2)\n", nConsts[c.Global][1])
 		fmt.Fprintf(&wb, "base %s\n", nModel(c.Global))
 	}
+	sb.WriteString("twins()\n")
+	wb.WriteString(wb2.String())
 	return sb.String(), wb.String()
 }
 
